@@ -48,7 +48,7 @@ WireReason(w, t, freshIds) ==
     ELSE "wire_lost_representable_" \o pc
 
 FreshAfter(e, s) ==
-  IF e.ev = "set" /\ e.res = "ok" THEN (IF s.s.x THEN s.freshIds \ {e.id} ELSE {e.id})
+  IF e.ev \in {"set", "setfrom"} /\ e.res = "ok" THEN (IF s.s.x THEN s.freshIds \ {e.id} ELSE {e.id})
   ELSE IF e.ev = "del" /\ e.res = "ok" THEN s.freshIds \ {e.id} ELSE s.freshIds
 
 \* refusal of the step itself: the state after it is unknown, the case is poisoned
@@ -58,6 +58,8 @@ EffectReason(e, s) ==
   ELSE IF e.res = "panic" THEN e.ev \o "_panic"
   ELSE IF e.ev = "set" /\ ~SetEffect(s.s, e.id, Pat(e.len, e.salt), e.res, t)
        THEN (IF e.res = "err" THEN "set_error_changed_header" ELSE "set_effect")
+  ELSE IF e.ev = "setfrom" /\ ~SetEffect(s.s, e.id, Lookup(IF s.s.x THEN s.s.exts ELSE <<>>, e.src), e.res, t)
+       THEN (IF e.res = "err" THEN "set_error_changed_header" ELSE "set_effect_shared_value")
   ELSE IF e.ev = "del" /\ ~DelEffect(s.s, e.id, e.res, t)
        THEN (IF e.res = "err" THEN "del_error_changed_header" ELSE "del_effect")
   ELSE ObsReason(e.obs, t)
@@ -75,7 +77,7 @@ Next ==
   /\ LET e == Trace[l] IN
        IF e.ev = "reset" THEN st' = Fresh
        ELSE IF st.poisoned THEN UNCHANGED st
-       ELSE IF e.ev \notin {"start", "set", "del"} THEN Reject(e, "unknown_event") /\ st' = [st EXCEPT !.poisoned = TRUE]
+       ELSE IF e.ev \notin {"start", "set", "del", "setfrom"} THEN Reject(e, "unknown_event") /\ st' = [st EXCEPT !.poisoned = TRUE]
        ELSE LET r == EffectReason(e, st) IN
             IF r # "" THEN Reject(e, r) /\ st' = [st EXCEPT !.poisoned = TRUE]
             ELSE LET w == WireR(e, st) IN
